@@ -1,6 +1,7 @@
 import Rooc.Wire
 import Rooc.WireSolve
 import Rooc.SolveOracle
+import Rooc.Drv.C04
 namespace Rooc.Drv.C05
 open Rooc Sexp SolverWrap
 
@@ -16,7 +17,7 @@ def handle (α : Type) [Arith α] [Wire α] : List Sexp → Sexp
           match s.verdict with | .optimal _ v => SolveOracle.encRat v | _ => .atom "-"]
       | .error w => app "err" [.atom w]
     | none => app "err" [.atom "decode"]
-  | _ => app "err" [.atom "bad-request"]
+  | args => Drv.C04.handle α args      -- the wrapper models (`milp-wrap`, `microlp-wrap`, `clarabel-wrap`, `auto-wrap`)
 
 /-- exact oracle: verdict and value of one entry point against the certified exact solver. -/
 def oracle : List Sexp → Sexp
